@@ -21,7 +21,8 @@ RULE = ("classes built on the eligibility boundary of trusted deserialization: e
         "Array, Set, Map; non-optional AnyOf; nested classes (depth <= 2, thorough 3) bare and inside Array/Set/Map/Optional; "
         "Optional of Array/Set/Map/Tuple/Deque/Anything; Tuple, Deque, positional Array, StructureReference, untyped "
         "collections, OneOf/AllOf; _ignore_none, additional properties, defaults on optional scalar fields; 30% of class "
-        "trees with TO_CAMELCASE/TO_LOWERCASE/rename/unsupported mappers per class; mode trusted: JSON images of up to 4 "
+        "trees with TO_CAMELCASE/TO_LOWERCASE/rename/unsupported mappers per class; 20% of the mapper-free classes with >= 2 fields "
+        "declared as a SUBCLASS whose first k fields are inherited from a parent class; mode trusted: JSON images of up to 4 "
         "valid instances per class (+ nulls for optional fields, 'True'/'False' and ints for Boolean/Float, undeclared keys, "
         "single-point corruptions, keys in own-mapper / cascaded / field-name form), keep_undefined x "
         "ignore_invalid_additional_properties in 3x2; mode construct: cls(**kw) vs from_trusted_data(None, **kw) / "
@@ -36,10 +37,12 @@ RULE = ("classes built on the eligibility boundary of trusted deserialization: e
         "identically declared tree whose classes were instantiated by the validating constructor first; JSON arrays of Set fields repeat "
         "elements; every case builds fresh classes; distinct by case hash")
 ASSUMPTIONS = [
-    "fail-fast mode, no Versioned classes, no Constant fields, no class inheritance, no uniqueness features",
+    "fail-fast mode, no Versioned classes, no uniqueness features; class inheritance only as 'fields split over a parent and a child class' "
+    "(the model sees the flattened field list)",
     "rename mappers are injective on the class's fields (key collisions are C07's subject); one mapper per class, no lists of mappers "
     "except as the 'unsupported' kind",
-    "SerializableField types other than Enum (DateField, DateTime, TimeField, DecimalNumber) and Enum serialization_by_value are not in the model",
+    "SerializableField types other than Enum (DateField, DateTime, TimeField, DecimalNumber), Constant attributes and Enum serialization_by_value "
+    "are not in the model: mode enumvalue runs the property's oracle on the real code only (trusted deserialization, from_trusted_data, fast twin)",
     "the regular path with mappers is modelled as Spec/TrustedSafe.deserializeMapped (every class-level object read through its class's "
     "own simple mapper, then the mapper-free regular path) and corresponded where no named deviation of the real regular path applies "
     "(enclosing TO_CAMELCASE/TO_LOWERCASE reaching nested classes, chained parent mappers, field-name fallback, a renamed field's original "
@@ -136,7 +139,7 @@ def judge_trusted(case, impl, model):
                     and not model.get("baseChain") and "regularMapped" in model
                     and not _uses_unmapped_names(cls, case["doc"], case.get("mapperSpec") or {})
                     and _extras_quiet(cls, case["doc"], case.get("mapperSpec") or {}, impl.get("opts_actual") or {}))
-    if mapped_scope:
+    if mapped_scope and not _has_set_of_struct_with_defaults(cls):
         m_reg = _loose_err(SD.res_diff("regular deserialize (with mappers)", model["regularMapped"], reg,
                                        errs=("TypeError", "ValueError", "InvalidStructureErr")))
         if m_reg:
@@ -145,7 +148,9 @@ def judge_trusted(case, impl, model):
     eligible = model.get("verdict") in ("flat", "nested")
     # (before /repo c4803f1 CPython deduplicated Set[Structure] elements by a hash of str(instance) while the model
     #  deduplicates by ==; since then equal structures hash alike and sets of structures are corresponded like the rest)
-    set_of_struct = False
+    #  except where a field default is involved: the trusted constructor does not store defaults, `==` / hash() read them,
+    #  the model's `==` on instances (attribute lists) does not (finding defaults-not-applied)
+    set_of_struct = _has_set_of_struct_with_defaults(cls)
     if set_of_struct:
         m_reg = None
         msgs[:] = [m for m in msgs if not m.startswith("regular deserialize")]
@@ -239,6 +244,24 @@ def _has_set_of_struct(d):
         return any(_has_set_of_struct(v) for v in d.values())
     if isinstance(d, list):
         return any(_has_set_of_struct(x) for x in d)
+    return False
+
+
+def _has_set_of_struct_with_defaults(d):
+    if isinstance(d, dict):
+        if d.get("k") == "setOf" and _contains_defaults(d.get("item")):
+            return True
+        return any(_has_set_of_struct_with_defaults(v) for v in d.values())
+    if isinstance(d, list):
+        return any(_has_set_of_struct_with_defaults(x) for x in d)
+    return False
+
+
+def _contains_defaults(d):
+    if isinstance(d, dict):
+        return (d.get("k") == "struct" and bool(d.get("defaults"))) or any(_contains_defaults(v) for v in d.values())
+    if isinstance(d, list):
+        return any(_contains_defaults(x) for x in d)
     return False
 
 
